@@ -114,6 +114,7 @@ type FuncSpec struct {
 	Pure          bool // (for extern) no heap effect at all
 	File          string
 	Line          int
+	DynTypes      map[string]string    // interface parameter -> dynamic type it holds in this unit (see `dyntype`)
 	Given         []string             // universally quantified integer parameters (see `given`)
 	InlineCallees []string             // callees executed by body in this unit
 	ExtraLoops    map[string]*LoopSpec // "callee.K" -> invariants added to loop K of an inlined callee
@@ -678,7 +679,7 @@ func readSpecLines(path string) ([]string, []int, error) {
 var clauseKeywords = map[string]bool{
 	"pure": true, "ghost": true, "func": true, "extern": true, "requires": true, "ensures": true,
 	"modifies": true, "loop": true, "let": true, "replay": true, "trusted": true, "lemma": true,
-	"guarded": true, "captures": true, "noeffect": true, "hint": true, "abstract": true, "callpre": true, "inlined": true, "open": true, "inline": true, "given": true,
+	"guarded": true, "captures": true, "noeffect": true, "hint": true, "abstract": true, "callpre": true, "inlined": true, "open": true, "inline": true, "given": true, "dyntype": true,
 }
 
 // joinClauses merges continuation lines (lines whose first word is not a keyword).
@@ -971,6 +972,17 @@ func (db *SpecDB) LoadFile(path, pkg string) error {
 			default:
 				return fail(i, "unknown loop clause %q", w3)
 			}
+		case "dyntype":
+			// dyntype PARAM TYPE: in this unit the interface parameter PARAM holds a value of dynamic type TYPE
+			// (used to verify a library function for the one instantiation the repository uses)
+			if cur == nil {
+				return fail(i, "dyntype outside func")
+			}
+			pn, tn := splitWord(rest)
+			if cur.DynTypes == nil {
+				cur.DynTypes = map[string]string{}
+			}
+			cur.DynTypes[pn] = strings.TrimSpace(tn)
 		case "given":
 			// given i0, j0: universally quantified integer parameters of this contract. Inside the unit they are
 			// arbitrary fixed integers (proving a clause for an arbitrary value proves it for all); at call sites the
